@@ -9,7 +9,8 @@
    (SaveDir_claim.cfg) must be violated in the model (anti-vacuity).
 2. The bash model is pinned against the real bash: the script text of every exported shell case is
    given to /bin/bash in a directory laid out as the model assumes; the words must agree.
-3. Binding R: every exported case becomes a real link with WILD_SAVE_DIR, then `bash run-with <wild>`
+3. Binding R: exported cases (all single-character texts first, then seeded random order, within a time
+   budget) each become a real link with WILD_SAVE_DIR, then `bash run-with <wild>`
    (other cwd, OUT redirected) and the sha256 of both outputs is compared.  A replay that fails or
    differs contradicts the property -> report(key by blamed class).  The transcription of write_args
    is compared with the bytes wild really wrote.
@@ -28,10 +29,10 @@ from vlib.common import ToolError, build_wild, log, save_replay, scratch, sh, sh
 
 PROP = "C24"
 META = {
-    "ready": False,
+    "ready": True,
     "level": "exploration",
     "technique": "TLA+ model of bash word formation and of wild's response-file lexer plus a transcription of save_dir.rs quoting, enumerated by TLC over all short argument texts; every enumerated case replayed into the real wild (WILD_SAVE_DIR, then run-with) and the real bash",
-    "level_text": "TLC enumerates every argument text of length <= 2 (quick) / <= 3 (thorough) over 22 character classes (plain, space, tab, newline, quotes, $, backslash, backquote, ; & | ( < * ? # ~ = - @) in 7 position kinds and evaluates RoundTrip = (words formed on replay = original arguments) on a model of bash word formation / wild's response-file lexer; a candidate quoting is model-checked to round-trip all of them. Each enumerated case (all of them quick; all of length <= 2 plus a seeded sample of length 3 thorough) is replayed for real: link with WILD_SAVE_DIR, run run-with with the same binary in another directory, compare sha256. The bash model is pinned against /bin/bash on the same texts.",
+    "level_text": "TLC enumerates every argument text of length <= 2 (quick) / <= 3 (thorough) over 22 character classes (plain, space, tab, newline, quotes, $, backslash, backquote, ; & | ( < * ? # ~ = - @) in 7 position kinds and evaluates RoundTrip = (words formed on replay = original arguments) on a model of bash word formation / wild's response-file lexer; a candidate quoting is model-checked to round-trip all of them. Enumerated cases (all single-character texts, then a seeded random order of the rest, as many as fit the time budget: a few hundred quick, a few thousand thorough) are replayed for real: link with WILD_SAVE_DIR, run run-with with the same binary in another directory, compare sha256. The bash model is pinned against /bin/bash on the same texts.",
     "level_note": "Exploration over a model-checked quoting model: texts longer than 3 characters, bytes outside the 22 classes (e.g. braces, '!', '>', non-UTF-8) and the save directory's own path are not covered; COLLECT_GCC env propagation and plugins are out of scope. Trusted base: TLC, /bin/bash as the shell the prelude demands, the representative byte per class.",
     "engine": "tlc",
 }
@@ -309,7 +310,7 @@ def run(ctx):
     rest = [x for x in recs if len(x["text"]) > 1]
     rng.shuffle(rest)
     ordered = first + rest
-    pin_budget, real_budget = (15, 45) if ctx.quick else (240, 1000)
+    pin_budget, real_budget = (15, 45) if ctx.quick else (180, 800)
     wild = build_wild()
     with scratch("c24") as d:
         seeds = Seeds(d / "seeds")
